@@ -136,7 +136,43 @@ func (g *Gen) randomInstrs(s schema, maxN int, filtered bool) []Instr {
 	return ins
 }
 
+// upperFamilies: the built-in "ToUpper" on string columns rich in empty strings, nulls and repeated
+// values, in storage order and rearranged (sorted backwards, sliced), in place and to a new column
+func (g *Gen) upperFamilies() {
+	pool := []string{"", "", "abc", "a", "", "é", "Ab", "zz"}
+	for rep := 0; rep < g.pick(60, 600); rep++ {
+		n := 2 + g.rng.Intn(7)
+		strs := make([]*BS, n)
+		pos := make([]int64, n)
+		for i := range strs {
+			if g.rng.Intn(7) != 0 {
+				strs[i] = bsp(pool[g.rng.Intn(len(pool))])
+			}
+			pos[i] = int64(i)
+		}
+		g.begin("builtin upper")
+		f := g.do(Step{Op: "New", Recv: -1, HasOrder: true, ColOrder: bsList([]string{"S", "P"}),
+			Data: []ColData{{Name: toBS("S"), Kind: "string", Strs: strs}, {Name: toBS("P"), Kind: "int", Ints: pos}}})
+		up := func(f int, dst string) int {
+			return g.do(Step{Op: "Apply", Recv: f, Instrs: []Instr{{Fn: FnRef{K: "builtin", Sym: "ToUpper"}, Dst: toBS(dst), Src1: toBS("S")}}})
+		}
+		up(f, "S")
+		u := up(f, "U")
+		up(u, "S") // on a column produced by Apply
+		r := g.do(Step{Op: "Sort", Recv: f, Orders: []Order{{Col: toBS("P"), Rev: true}}})
+		up(r, g.oneOf([]string{"S", "U"}))
+		if n > 2 {
+			a := g.rng.Intn(n - 1)
+			up(g.do(Step{Op: "Slice", Recv: g.oneOf2(f, r), A: a, B: a + 1 + g.rng.Intn(n-a-1)}), "S")
+		}
+		cl := Clause{K: "leaf", Col: toBS("S"), CmpK: "str", Cmp: "isnotnull"}
+		up(g.do(Step{Op: "Filter", Recv: r, Clause: &cl}), "U")
+		g.end()
+	}
+}
+
 func genC06(g *Gen) {
+	g.upperFamilies()
 	colsets := []string{"ABF", "FGT", "TUS", "SRE", "ABCFGTUSR", "EXA", "SB"}
 	sizes := []int{0, 1, 2, 3, 5, 8, 13, 30, 80}
 	for rep := 0; rep < g.pick(400, 4000); rep++ {
@@ -162,6 +198,26 @@ func genC06(g *Gen) {
 				g.do(Step{Op: "WithRowNums", Recv: f, Dst: toBS(g.oneOf(append([]string{"rn", "rn", "", "$r"}, s.names...)))})
 			}
 		}
+		// siblings: several calls that each ADD a column to the same parent, which is itself the result of
+		// adding columns (a frame header with room to spare): none may show in another's result
+		if g.rng.Intn(2) == 0 {
+			par := g.do(Step{Op: "WithRowNums", Recv: f, Dst: toBS("w0")})
+			if g.rng.Intn(2) == 0 {
+				par = g.do(Step{Op: "Copy", Recv: par, Dst: toBS("w1"), Src: toBS(s.names[0])})
+			}
+			if sp := schemaOf(g.frame(par)); !sp.err {
+				g.do(Step{Op: "WithRowNums", Recv: par, Dst: toBS("s1")})
+				g.do(Step{Op: "Copy", Recv: par, Dst: toBS("s2"), Src: toBS(g.oneOf(sp.names))})
+				ins := g.randomInstrs(sp, 2, false)
+				for i := range ins {
+					ins[i].Dst = toBS("s3" + itoa(i))
+				}
+				g.do(Step{Op: "Apply", Recv: par, Instrs: ins})
+				e := g.genExpr(sp, g.oneOf([]string{"int", "float", "bool", "string"}), 2)
+				g.do(Step{Op: "Eval", Recv: par, Dst: toBS("s4"), Expr: &e, Ctx: userCtx})
+				g.do(Step{Op: "Apply", Recv: par, Instrs: []Instr{{Fn: FnRef{K: "const", V: &Val{T: "int", I: 5}}, Dst: toBS("s5")}}})
+			}
+		}
 		// chain on a result so that destinations of one call are sources of the next
 		last := len(g.x.frames) - 1
 		if s2 := schemaOf(g.frame(last)); !s2.err && len(s2.names) > 0 {
@@ -176,10 +232,10 @@ func genC06(g *Gen) {
 type sigT struct{ op, res string }
 
 var unaryOps = map[string][]sigT{
-	"int":    {{"abs", "int"}, {"str", "string"}, {"bool", "bool"}, {"float", "float"}, {"neg", "int"}, {"half", "float"}},
-	"float":  {{"abs", "float"}, {"str", "string"}, {"negf", "float"}},
-	"bool":   {{"!", "bool"}, {"str", "string"}, {"int", "int"}},
-	"string": {{"upper", "string"}, {"lower", "string"}, {"str", "string"}, {"len", "int"}, {"bang", "string"}},
+	"int":    {{"abs", "int"}, {"str", "string"}, {"bool", "bool"}, {"float", "float"}, {"neg", "int"}, {"half", "float"}, {"odd", "bool"}, {"nilneg", "string"}},
+	"float":  {{"abs", "float"}, {"str", "string"}, {"negf", "float"}, {"sign", "int"}, {"isneg", "bool"}},
+	"bool":   {{"!", "bool"}, {"str", "string"}, {"int", "int"}, {"fltb", "float"}},
+	"string": {{"upper", "string"}, {"lower", "string"}, {"str", "string"}, {"len", "int"}, {"bang", "string"}, {"isnil", "bool"}, {"lenf", "float"}, {"nilempty", "string"}},
 }
 var binaryOps = map[string][]string{
 	"int":    {"+", "-", "*", "-", "fst"},
@@ -187,7 +243,9 @@ var binaryOps = map[string][]string{
 	"bool":   {"&", "|", "!=", "nand", "impl"},
 	"string": {"+", "+", "fsts"},
 }
-var userCtx = []CtxFn{{"neg", "negI"}, {"half", "halfI"}, {"negf", "negF"}, {"bang", "bangS"}, {"fst", "fstI"}, {"impl", "implB"}, {"fsts", "fstS"}}
+// one user function for every (operand type, result type) branch of the columns' Apply1 / Apply2
+var userCtx = []CtxFn{{"neg", "negI"}, {"half", "halfI"}, {"negf", "negF"}, {"bang", "bangS"}, {"fst", "fstI"}, {"impl", "implB"}, {"fsts", "fstS"},
+	{"odd", "oddI"}, {"nilneg", "nilIfNegI"}, {"sign", "signF"}, {"isneg", "isNegF"}, {"fltb", "fltB"}, {"isnil", "isNilS"}, {"lenf", "lenFS"}, {"nilempty", "nilIfEmptyS"}}
 
 func (g *Gen) constOf(t string) *Val {
 	switch t {
